@@ -38,8 +38,9 @@ def run(ctx):
                 cases.append({"kind": "c02", "inst": inst, "L": L, "P": P, "shape": "small-scope", "penalties": kind})
         ctx.notes["exhaustive_small_scope"] = "all instances with <= 2 jobs x <= 2 operations on 2 machines, durations <= 2, slack 0..2 with 1..10 qubits, share 0, all basis states"
     cases += [dict(je.gen_contended_case(ctx.rng, share=0), kind=PID.lower()) for _ in range(ctx.n(24, 250))]
+    cases += [dict(je.gen_large_slack_case(ctx.rng, share=0), kind=PID.lower()) for _ in range(ctx.n(10, 120))]
     for c in cases:
-        summ = (je.examine_low_energy if c.get("scan") else je.examine)(ctx, batch, c, WANT, ctx.rng)
+        summ = je.examiner(c)(ctx, batch, c, WANT, ctx.rng)
         c01.tally_case(ctx, c, summ)
         if "feasible_states" in summ:
             ctx.tally("feasible-states", summ["feasible_states"])
@@ -49,7 +50,7 @@ def run(ctx):
 def replay(ctx, payload):
     c = payload.get("case") or payload.get("failing_input")
     batch = je.Batch()
-    (je.examine_low_energy if c.get("scan") else je.examine)(ctx, batch, c, WANT, ctx.rng)
+    je.examiner(c)(ctx, batch, c, WANT, ctx.rng)
     for v in ctx.violations[:10]:
         print("oracle:", v["key"], "-", v["what"])
     print("impl-vs-property:", "FAILS" if ctx.violations else "ok")
